@@ -66,12 +66,12 @@ PROPS = {
         ],
     ),
     'C01': dict(
-        verus=['pmtiles_dir', 'varint_pbf', 'tile_bbox', 'tile_index'],
+        verus=['pmtiles_dir', 'varint_pbf', 'tile_bbox', 'tile_index', 'block_index'],
         kani=['pmtiles_codec', 'versatiles_codec', 'tile_bbox', 'tile_bbox_iter'],
         not_decided=[
             'end-to-end write-then-read through async I/O (writer bodies, de-duplication closure, PMTiles write loop)',
             'MBTiles (SQL), tar and directory (file names), getters.rs dispatch',
-            'BlockIndex (HashMap of blocks) record loop; the outer size search of as_directory (float loop)',
+            'BlockIndex::as_blob / get_bbox_pyramid (HashMap iteration); the outer size search of as_directory (float loop)',
         ],
     ),
     'C11': dict(
@@ -86,7 +86,7 @@ PROPS = {
         ],
     ),
     'C16': dict(
-        verus=['pmtiles_dir', 'varint_pbf', 'pmtiles_reader', 'versatiles_reader', 'tile_index'],
+        verus=['pmtiles_dir', 'varint_pbf', 'pmtiles_reader', 'versatiles_reader', 'tile_index', 'block_index'],
         kani=['pmtiles_codec', 'versatiles_codec'],
         not_decided=[
             'MBTiles zoom gaps (SQL), ./-prefixed tar members (string code)',
@@ -94,7 +94,7 @@ PROPS = {
         ],
     ),
     'C19': dict(
-        verus=['varint_pbf', 'pmtiles_dir', 'filters', 'converter', 'vector_tile_tables', 'pmtiles_reader', 'vector_tile_feature', 'convert_cli', 'versatiles_reader', 'tile_index', 'vector_tile_layer'],
+        verus=['varint_pbf', 'pmtiles_dir', 'filters', 'converter', 'vector_tile_tables', 'pmtiles_reader', 'vector_tile_feature', 'convert_cli', 'versatiles_reader', 'tile_index', 'vector_tile_layer', 'block_index'],
         kani=['pmtiles_codec', 'versatiles_codec', 'geo'],
         not_decided=[
             'JSON / TileJSON / CSV / VPL text parsers (String, nom, core::fmt: outside both verifiers; Kani probes timed out)',
